@@ -168,11 +168,14 @@ func vfRemoveID(st []vfSeen, id byte) []vfSeen {
 	return out
 }
 
-// one batch of the scripted history: op 0 = Update(id, payload), 1 = Delete(id)
+// one batch of the scripted history: op 0 = Update(id, payload), 1 = Delete(id),
+// 2 = Update(id, payload) and Update(id+1, payload2) in one batch (one segment of two documents),
+// 3 = Delete(id) and Update(id+1, payload) in one batch
 type vfStep struct {
-	op      int
-	id      byte
-	payload byte
+	op       int
+	id       byte
+	payload  byte
+	payload2 byte
 }
 
 func (wd *vfWorld) next(st vfStep) []vfSeen {
@@ -180,15 +183,28 @@ func (wd *vfWorld) next(st vfStep) []vfSeen {
 	if st.op == 1 {
 		return vfRemoveID(cur, st.id)
 	}
-	return vfInsertSorted(cur, vfSeen{id: st.id, payload: st.payload})
+	if st.op == 3 {
+		return vfInsertSorted(vfRemoveID(cur, st.id), vfSeen{id: st.id + 1, payload: st.payload})
+	}
+	cur = vfInsertSorted(cur, vfSeen{id: st.id, payload: st.payload})
+	if st.op == 2 {
+		cur = vfInsertSorted(cur, vfSeen{id: st.id + 1, payload: st.payload2})
+	}
+	return cur
 }
 
 func vfStepBatch(st vfStep) *Batch {
 	b := NewBatch()
 	if st.op == 1 {
 		b.Delete(vfIDTerm(st.id))
+	} else if st.op == 3 {
+		b.Delete(vfIDTerm(st.id))
+		b.Update(vfIDTerm(st.id+1), &vfDocument{id: st.id + 1, payload: st.payload})
 	} else {
 		b.Update(vfIDTerm(st.id), &vfDocument{id: st.id, payload: st.payload})
+		if st.op == 2 {
+			b.Update(vfIDTerm(st.id+1), &vfDocument{id: st.id + 1, payload: st.payload2})
+		}
 	}
 	return b
 }
@@ -199,17 +215,25 @@ func vfScript(sc int) []vfStep {
 	p := func() byte { return vfByte("payload") }
 	switch sc {
 	case 0:
-		return []vfStep{{0, 1, p()}}
+		return []vfStep{{op: 0, id: 1, payload: p()}}
 	case 1:
-		return []vfStep{{0, 1, p()}, {0, 1, p()}}
+		return []vfStep{{op: 0, id: 1, payload: p()}, {op: 0, id: 1, payload: p()}}
 	case 2:
-		return []vfStep{{0, 1, p()}, {1, 1, 0}}
+		return []vfStep{{op: 0, id: 1, payload: p()}, {op: 1, id: 1}}
 	case 3:
-		return []vfStep{{0, 1, p()}, {0, 2, p()}}
+		return []vfStep{{op: 0, id: 1, payload: p()}, {op: 0, id: 2, payload: p()}}
 	case 4:
-		return []vfStep{{0, 1, p()}, {0, 2, p()}, {1, 1, 0}}
+		return []vfStep{{op: 0, id: 1, payload: p()}, {op: 0, id: 2, payload: p()}, {op: 1, id: 1}}
 	case 5:
-		return []vfStep{{0, 1, p()}, {1, 1, 0}, {0, 1, p()}}
+		return []vfStep{{op: 0, id: 1, payload: p()}, {op: 1, id: 1}, {op: 0, id: 1, payload: p()}}
+	case 6:
+		// one segment of two documents, then its documents deleted one batch at a time
+		return []vfStep{{op: 2, id: 1, payload: p(), payload2: p()}, {op: 1, id: 1}, {op: 1, id: 2}}
+	case 7:
+		return []vfStep{{op: 2, id: 1, payload: p(), payload2: p()}, {op: 1, id: 2}, {op: 0, id: 1, payload: p()}}
+	case 8:
+		// two-document segment; delete one; then delete the other and add a third in one batch
+		return []vfStep{{op: 2, id: 1, payload: p(), payload2: p()}, {op: 1, id: 1}, {op: 3, id: 2, payload: p()}}
 	}
 	return nil
 }
@@ -276,7 +300,7 @@ func VF_C02_ConcurrentBatchesDurable(nw int) {
 		wd.issuedDocs = append(wd.issuedDocs, doc)
 		wg.Add(1)
 		go func() {
-			b := vfStepBatch(vfStep{0, doc.id, doc.payload})
+			b := vfStepBatch(vfStep{op: 0, id: doc.id, payload: doc.payload})
 			called := false
 			b.SetPersistedCallback(func(err error) {
 				vfAssert(err == nil, "persisted-callback reports success without faults")
@@ -298,5 +322,47 @@ func VF_C02_ConcurrentBatchesDurable(nw int) {
 	vfAssert(len(wd.ackedDocs) == nw, "every caller returned")
 	err = w.Close()
 	vfAssert(err == nil, "Close succeeds")
+	wd.crashAt(wd.cloneDir("", 0), "reopen after Close")
+}
+
+// C03 on the real writer (tier 2), unsafe batch mode: Batch returns once the
+// batch is applied, the persister works concurrently with the following
+// batches. Every crash image — after every directory operation and with a torn
+// item in flight — reopens without fault to a state of the history (a prefix),
+// never a mixture, and to one that contains every batch whose
+// persisted-callback has reported success.
+//
+// vf:harness property=C03 cases=sc:8 cases.thorough=sc:4..8 sched=1 schedbudget=2 schedbudget.thorough=3 preempt=0 preempt.thorough=1 schedtotal=2 schedtotal.thorough=3 goinline=1 chanslack=8 deadlock=violation clock=zero maxpaths=400000 replay=model-only diff=off
+// vf:replace hash/crc32.Update vfChecksumUpdate
+// vf:replace io.CopyN vfCopyN
+// vf:replace (*github.com/RoaringBitmap/roaring.Bitmap).ReadFrom vfRoaringReadFrom
+// vf:replace (*github.com/RoaringBitmap/roaring.Bitmap).ToBytes vfRoaringToBytes
+// vf:bounds scripted histories of three batches (two ids; a two-document segment whose documents are deleted one batch at a time; delete then re-insert) with arbitrary payloads, unsafe batch mode, fresh model directory; schedule and crash-image bounds as VF_C02_AckedBatchIsDurable
+// vf:assume as VF_C02_AckedBatchIsDurable
+func VF_C03_LiveCrashImagesArePrefixes(sc int) {
+	script := vfScript(sc)
+	wd := &vfWorld{dir: vfNewDir(), states: [][]vfSeen{nil}}
+	wd.install()
+	w, err := OpenWriter(vfLiveConfig(wd.dir, true))
+	vfAssert(err == nil && w != nil, "OpenWriter succeeds on an empty directory")
+	for _, st := range script {
+		wd.states = append(wd.states, wd.next(st))
+		wd.issued++
+		b := vfStepBatch(st)
+		k := wd.issued
+		b.SetPersistedCallback(func(err error) {
+			vfAssert(err == nil, "persisted-callback reports success without faults")
+			if wd.acked < k {
+				wd.acked = k
+			}
+			wd.crashAt(wd.cloneDir("", 0), "crash right after the persisted-callback")
+		})
+		vfAssert(w.Batch(b) == nil, "Batch succeeds without faults")
+		r, rerr := w.Reader()
+		vfAssert(rerr == nil && r != nil, "a reader can be obtained")
+		vfAssert(vfSameContent(vfSortedContent(r), wd.states[wd.issued]), "a reader obtained after Batch returned reflects the batch")
+		_ = r.Close()
+	}
+	vfAssert(w.Close() == nil, "Close succeeds")
 	wd.crashAt(wd.cloneDir("", 0), "reopen after Close")
 }
